@@ -19,6 +19,7 @@ from __future__ import annotations
 import sys
 import unicodedata
 from abc import abstractmethod
+from fractions import Fraction
 from functools import reduce
 from itertools import chain, groupby
 from numbers import Rational
@@ -158,7 +159,7 @@ class Term(ItemSequenceT[T]):
                     pass
                 else:
                     if conv is not None:
-                        return tuple(_filter_items(((conv ** exp2, 1),
+                        return tuple(_filter_items(((_pow(conv, exp2), 1),
                                                     (elem1, exp1 + exp2))))
                 if keep_item_order:
                     return tuple(_filter_items(((elem1, exp1),
@@ -174,7 +175,7 @@ class Term(ItemSequenceT[T]):
                 return tuple(_filter_items(((elem2, exp2), (elem1, exp1))))
             # least relevant case: 2 numeric elements
             if isinstance(elem1, Rational) and isinstance(elem2, Rational):
-                num: Rational = elem1 ** exp1 * elem2 ** exp2
+                num: Rational = _pow(elem1, exp1) * _pow(elem2, exp2)
                 if num != 1:
                     return (num, 1),
         # more than 2 items or number of items unknown:
@@ -216,7 +217,7 @@ class Term(ItemSequenceT[T]):
                             pass
                         else:
                             if conv is not None:
-                                num_elem *= conv ** exp2
+                                num_elem *= _pow(conv, exp2)
                                 accum_items[idx] = (elem_t1, exp1 + exp2)
                                 done = True
                                 break
@@ -233,7 +234,7 @@ class Term(ItemSequenceT[T]):
             else:  # numerical elements
                 group_it = cast(Iterator[Tuple[int, Tuple[Rational, int]]],
                                 group_it)
-                num_elem = reduce(mul, (elem ** exp
+                num_elem = reduce(mul, (_pow(elem, exp)
                                         for _, (elem, exp) in group_it),
                                   num_elem)
         if num_elem != 1:
@@ -276,7 +277,7 @@ class Term(ItemSequenceT[T]):
             pass
         else:
             if isinstance(elem, Rational):
-                return cast(Rational, elem ** exp)
+                return cast(Rational, _pow(elem, exp))
         return None
 
     def split(self, dflt_num: Rational = ONE) \
@@ -414,6 +415,13 @@ class Term(ItemSequenceT[T]):
 
 
 # helper functions
+
+def _pow(num: Rational, exp: int) -> Rational:
+    """num ** exp, exact also for a plain int and a negative exponent."""
+    if exp < 0 and isinstance(num, int):
+        return Fraction(num) ** exp
+    return num ** exp
+
 
 def _same_items(items1: ItemTupleT[T], items2: ItemTupleT[T]) -> bool:
     # Non-numeric elements must be identical, not only equal: an element can
